@@ -360,29 +360,26 @@ int sbdf_md_copy(sbdf_metadata_head const* head, sbdf_metadata_head* out)
 		}
 	}
 
-	first = out->first;
-	prev = first;
-	if (prev)
-	{
-		while (prev->next)
-		{
-			prev = prev->next;
-		}
-	}
+	/* the copies are collected in a list of their own and appended only when all of them exist */
+	first = 0;
+	prev = 0;
+	error = SBDF_OK;
 
 	for (iter = head->first; iter; iter = iter->next)
 	{
 		sbdf_metadata* t = calloc(sizeof(sbdf_metadata), 1);
 		if (!t)
 		{
-			return SBDF_ERROR_OUT_OF_MEMORY;
+			error = SBDF_ERROR_OUT_OF_MEMORY;
+			break;
 		}
 
 		t->name = sbdf_str_copy(iter->name);
 		if (!t->name)
 		{
 			free(t);
-			return SBDF_ERROR_OUT_OF_MEMORY;
+			error = SBDF_ERROR_OUT_OF_MEMORY;
+			break;
 		}
 
 		error = sbdf_obj_copy(iter->value, &t->value);
@@ -390,7 +387,7 @@ int sbdf_md_copy(sbdf_metadata_head const* head, sbdf_metadata_head* out)
 		{
 			sbdf_str_destroy(t->name);
 			free(t);
-			return error;
+			break;
 		}
 
 		if (iter->default_value)
@@ -401,7 +398,7 @@ int sbdf_md_copy(sbdf_metadata_head const* head, sbdf_metadata_head* out)
 				sbdf_obj_destroy(t->value);
 				sbdf_str_destroy(t->name);
 				free(t);
-				return error;
+				break;
 			}
 		}
 		else
@@ -421,7 +418,34 @@ int sbdf_md_copy(sbdf_metadata_head const* head, sbdf_metadata_head* out)
 		prev = t;
 	}
 
-	out->first = first;
+	if (error)
+	{
+		while (first)
+		{
+			sbdf_metadata* next = first->next;
+			sbdf_obj_destroy(first->value);
+			sbdf_obj_destroy(first->default_value);
+			sbdf_str_destroy(first->name);
+			free(first);
+			first = next;
+		}
+		return error;
+	}
+
+	if (out->first)
+	{
+		prev = out->first;
+		while (prev->next)
+		{
+			prev = prev->next;
+		}
+		prev->next = first;
+	}
+	else
+	{
+		out->first = first;
+	}
+
 	return SBDF_OK;
 }
 
